@@ -309,3 +309,21 @@ package proxy
 //@             common.sgcd(min(connConfig.ShardCountConfig.LocalShardCount, connConfig.ShardCountConfig.RemoteShardCount), max(connConfig.ShardCountConfig.LocalShardCount, connConfig.ShardCountConfig.RemoteShardCount)))
 //@   callpre createServer: @translations_valid: err == nil
 //@   ensures @rejects_non_bijective: res1(connConfig.NamespaceTranslation.AsLocalToRemoteBiMap()) != nil ==> result1 != nil && result0 == nil
+
+// ---------------------------------------------------------------------------------------------
+// C16: listing namespaces returns only allowed ones.
+// ---------------------------------------------------------------------------------------------
+//@ extern quiet copyContext
+//@ extern (workflowservice.WorkflowServiceClient).ListNamespaces(c, ctx, in, opts)
+//@   trusted gRPC client call; A-temporal: every entry of a namespace listing carries its NamespaceInfo
+//@   ensures result0 != nil ==> forall k int :: { result0.Namespaces[k] } 0 <= k && k < len(result0.Namespaces) ==> result0.Namespaces[k] != nil && result0.Namespaces[k].NamespaceInfo != nil
+//@   ensures result0 != nil ==> fresh(result0)
+//@   assigns nothing
+//@ contract (*workflowServiceProxyServer).ListNamespaces
+//@   props C16
+//@   ensures @only_allowed: s.namespaceAccess != nil && result0 != nil ==> forall k int :: { result0.Namespaces[k] } 0 <= k && k < len(result0.Namespaces) ==>
+//@              auth.allowedIn(s.namespaceAccess, result0.Namespaces[k].NamespaceInfo.Name)
+//@   loop 1 invariant forall k int :: { newNamespaceList[k] } 0 <= k && k < len(newNamespaceList) ==> newNamespaceList[k] != nil && newNamespaceList[k].NamespaceInfo != nil &&
+//@              auth.allowedIn(s.namespaceAccess, newNamespaceList[k].NamespaceInfo.Name)
+//@   loop 1 invariant forall k int :: { response.Namespaces[k] } 0 <= k && k < len(response.Namespaces) ==> response.Namespaces[k] != nil && response.Namespaces[k].NamespaceInfo != nil
+//@   loop 1 invariant response != nil && s.namespaceAccess != nil && fresh(newNamespaceList)
